@@ -13,10 +13,10 @@ open Panqec Panqec.Sweep
 -/
 namespace Drv
 
-def parseInt? (s : String) : Option Int := s.toInt?
+def swParseInt? (s : String) : Option Int := s.toInt?
 
 def parseLoc? (s : String) : Option Loc :=
-  match (s.splitOn ",").map parseInt? with
+  match (s.splitOn ",").map swParseInt? with
   | [some x, some y, some z] => some (x, y, z)
   | _ => none
 
